@@ -29,7 +29,7 @@ class Obligation:
             "key": self.key, "kind": self.kind, "func": self.func, "line": self.line,
             "desc": self.desc, "status": self.status, "backend": self.backend,
             "time_s": round(self.time, 4), "model": self.model, "path": self.path_id,
-            "twin": self.twin,
+            "twin": self.twin, "smt2": self.smt2,
         }
 
 
